@@ -115,6 +115,9 @@ func scenarioProxySched(c *vrun.Ctx) {
 					env.origin.Bump(uri)
 				}
 			}
+			if p.Outcome == "transient-503" {
+				res.ForceOnce = 503 // only the first upstream request of the concurrent phase fails
+			}
 			preLog = len(env.origin.Log)
 			// the first origin request of the concurrent phase is held until every other thread has
 			// run as far as it can, so that the clients really are in flight at the same time
